@@ -492,7 +492,11 @@ class OFXClient:
         # ORG/FID, which many FIs leave blank and which needn't be unique.
         urlhash = hashlib.sha1((url or self.url).encode("utf_8")).hexdigest()[:12]
         # ORG/FID are free text (e.g. "Cavion/Phoenix"); make them safe for a file name
-        ident = urllib_parse.quote(f"{self.org}-{self.fid}", safe="")
+        # (and keep "ORG-FID" unambiguous: "a-b"/"c" isn't "a"/"b-c")
+        ident = "-".join(
+            urllib_parse.quote(str(part), safe="").replace("-", "%2D")
+            for part in (self.org, self.fid)
+        )
         filename = f"{ident}-{urlhash}.profrs"
         persistdir = config.DATADIR / "fiprofiles"
         persistpath = persistdir / filename
